@@ -332,10 +332,53 @@ class Engine2(Engine):
                         self.oblige(st, fr, "bytes-slice", [e - s, L - e], t, f"Bytes::slice {r.fields['start']!r}..{r.fields['end']!r} within len {a0.len!r}")
                         return [(st, SeqV(IntV(0, MAXLEN, e - s), a0.elem))]
                 if meth in ("clone", "to_vec"): return [(st, SeqV(a0.len, a0.elem))]
+        if n.endswith("mem::replace") and len(args) == 2:
+            old = a0
+            setref(args[0], args[1])
+            if old is not None: return [(st, old)]
         if n.endswith("mem::take"):
             v = a0
             if isinstance(v, SeqV): setref(args[0], SeqV(const_int(0), v.elem)); return [(st, v)]
             if isinstance(v, IntV): setref(args[0], const_int(0)); return [(st, v)]
+        # --- total integer helpers (refactorings replace guarded `a - b` by these)
+        if re.search(r"impl (u|i)\d+>::(checked_sub|checked_add)$|impl usize>::(checked_sub|checked_add)$", n) and len(args) == 2 and isinstance(args[0], IntV) and isinstance(args[1], IntV):
+            a, b = lin_of(st, args[0]), lin_of(st, args[1])
+            (alo, ahi), (blo, bhi) = int_of(st, args[0]), int_of(st, args[1])
+            outs = []
+            if n.endswith("checked_sub"):
+                s_some = st.copy(); s_some.assume(a - b)          # Some(v): a >= b, v = a - b
+                outs.append((s_some, EnumV("std::option::Option", {"Some": (RecV("Some", {"0": IntV(max(0, alo - bhi), max(0, ahi - blo), a - b)}), ())})))
+                if not st.entails(a - b): 
+                    s_none = st.copy(); s_none.assume(b - a - Lin(1))
+                    outs.append((s_none, EnumV("std::option::Option", {"None": (None, ())})))
+            else:
+                hi_t = U64
+                s_some = st.copy(); s_some.assume(Lin(hi_t) - a - b)
+                outs.append((s_some, EnumV("std::option::Option", {"Some": (RecV("Some", {"0": IntV(alo + blo, min(hi_t, ahi + bhi), a + b)}), ())})))
+                if ahi + bhi > hi_t: outs.append((st.copy(), EnumV("std::option::Option", {"None": (None, ())})))
+            return outs
+        if re.search(r"::(saturating_sub)$", n) and len(args) == 2 and isinstance(args[0], IntV) and isinstance(args[1], IntV):
+            (alo, ahi), (blo, bhi) = int_of(st, args[0]), int_of(st, args[1])
+            return [(st, mk_int(max(0, alo - bhi), max(0, ahi - blo), "saturating_sub"))]
+        if re.search(r"::(saturating_add)$", n) and len(args) == 2 and isinstance(args[0], IntV) and isinstance(args[1], IntV):
+            (alo, ahi), (blo, bhi) = int_of(st, args[0]), int_of(st, args[1])
+            return [(st, mk_int(min(U64, alo + blo), min(U64, ahi + bhi), "saturating_add"))]
+        if re.search(r"(Ord>::min|::min)$", n) and len(args) == 2 and isinstance(deref(args[0]), IntV) and isinstance(deref(args[1]), IntV):
+            x, y = deref(args[0]), deref(args[1])
+            (alo, ahi), (blo, bhi) = int_of(st, x), int_of(st, y)
+            return [(st, mk_int(min(alo, blo), min(ahi, bhi), "min"))]
+        if re.search(r"(Ord>::max|::max)$", n) and len(args) == 2 and isinstance(deref(args[0]), IntV) and isinstance(deref(args[1]), IntV):
+            x, y = deref(args[0]), deref(args[1])
+            (alo, ahi), (blo, bhi) = int_of(st, x), int_of(st, y)
+            return [(st, mk_int(max(alo, blo), max(ahi, bhi), "max"))]
+        if re.search(r"::(leading_zeros|trailing_zeros|count_ones|count_zeros)$", n): return [(st, mk_int(0, 64, "bitcount"))]
+        if re.search(r"Range(Inclusive)?<.*>::contains$|RangeInclusive::contains$|Range::contains$|<Idx>::contains$", n) and len(args) == 2:
+            rg, x = deref(args[0]), deref(args[1])
+            if isinstance(rg, RecV) and isinstance(x, IntV) and "start" in rg.fields and "end" in rg.fields and isinstance(rg.fields["start"], IntV) and isinstance(rg.fields["end"], IntV):
+                lo_, hi_, xv = lin_of(st, rg.fields["start"]), lin_of(st, rg.fields["end"]), lin_of(st, x)
+                incl = "Inclusive" in n or "Inclusive" in str(rg.name)
+                upper = (hi_ - xv) if incl else (hi_ - xv - Lin(1))
+                return [(st, self.boolv(st, [xv - lo_, upper], []))]
         if n.endswith("div_ceil") and isinstance(args[0], IntV) and isinstance(args[1], IntV):
             alo, ahi = int_of(st, args[0]); blo, bhi = int_of(st, args[1])
             self.oblige(st, fr, "div_ceil", [lin_of(st, args[1]) - Lin(1)], t, f"div_ceil divisor {args[1]!r} != 0")
